@@ -752,7 +752,7 @@ impl Store {
             }
             __items0.push(__cur);
         }
-        let __sel0 = limit_sort_all(__items0, self.limit, compare_hits);
+        let __sel0 = limit_sort_all(__items0, self.limit, CmpHits);
         let mut __out0: Vec<SearchResult> = Vec::new();
         let mut __q0 = 0;
         while __q0 < __sel0.len()
